@@ -79,7 +79,7 @@ class Ctx(object):
         if len(self.samples) < 400:
             self.samples.append({'rule': rule, 'function': fn, 'at': loc, 'instance': key,
                                  'verdict': 'holds' if ok else 'VIOLATED',
-                                 'detail': msg or ''})
+                                 ('requirement' if ok else 'finding'): msg or ''})
         if not ok:
             r['failed'] += 1
             self.findings.append(Finding(self.prop, rule, fn, key, msg or '', loc))
@@ -115,7 +115,7 @@ def load_known():
 def finish(ctx, explanation, decides, not_decided, exhaustive=False, extra=None):
     """Apply floors and known findings, write evidence, print verdict lines; returns exit code."""
     for rule, r in sorted(ctx.rules.items()):
-        if r['instances'] < r['floor']:
+        if r['instances'] < r['floor'] and not r['failed']:
             raise AnalysisBroken(rule, 'matched %d instances, floor confirmed by reading is %d '
                                  '(the code this rule is anchored in was restructured or the rule no '
                                  'longer recognises it)' % (r['instances'], r['floor']))
@@ -138,7 +138,7 @@ def finish(ctx, explanation, decides, not_decided, exhaustive=False, extra=None)
         seen.add(f.ident())
         print('KNOWN-FINDING: property=%s %s [%s in %s at %s]' % (f.prop, k.get('what', f.msg), f.rule,
                                                                   f.function, f.loc))
-    rdir = os.path.join(VERIF, 'replay')
+    rdir = os.environ.get('OFVERIF_REPLAY_DIR') or os.path.join(VERIF, 'replay')
     n = 0
     for f in new:
         os.makedirs(rdir, exist_ok=True)
@@ -189,7 +189,7 @@ def finish(ctx, explanation, decides, not_decided, exhaustive=False, extra=None)
         'wall_s': round(wall, 2),
         'violations': len(new),
     }
-    edir = os.path.join(VERIF, 'evidence')
+    edir = os.environ.get('OFVERIF_EVIDENCE_DIR') or os.path.join(VERIF, 'evidence')
     os.makedirs(edir, exist_ok=True)
     tmp = os.path.join(edir, '.%s.json.tmp' % ctx.prop)
     json.dump(ev, open(tmp, 'w'), indent=1)
